@@ -262,6 +262,31 @@ func (e *ivEval) identIv(v *types.Var, use *ast.Ident) iv {
 			var di iv
 			if self {
 				di = e.typeIv(v.Type())
+			} else if call, isCall := ast.Unparen(d).(*ast.CallExpr); isCall && tupleArity(m, call) > 1 && e.depth < 30 {
+				// one result of a helper with several results: the join of that result over the helper's returns
+				di = e.typeIv(v.Type())
+				if _, k := tupleSource(m, e.f, use); k >= 0 {
+					if kind, cal, _ := m.Callee(call); kind == core.CallStatic && cal.Body != nil {
+						var r2 *iv
+						sub := &ivEval{c: e.c, f: cal, depth: e.depth + 5}
+						core.InspectNoLits(cal.Body, func(n ast.Node) bool {
+							if rs, ok := n.(*ast.ReturnStmt); ok && k < len(rs.Results) {
+								sub.at = rs.Pos()
+								x := sub.eval(rs.Results[k])
+								if r2 == nil {
+									r2 = &x
+								} else {
+									j := join(*r2, x)
+									r2 = &j
+								}
+							}
+							return true
+						})
+						if r2 != nil {
+							di = *r2
+						}
+					}
+				}
 			} else {
 				di = e.eval(d)
 			}
